@@ -16,7 +16,10 @@ proof  : Props/C18.v over Lib/Mem.v (bytes, little-endian read/write, nine AMOs,
     processed requests one after another"
    "timing parameters change only when responses arrive,      C18_timing_irrelevant, C18_timing_irrelevant_drained, C18_single_port_deterministic,
     never what they contain"                                  C18_cycles_invariant
-tie    : T-acc/T-diff.  The REAL MagicMemoryCL and stream MagicMemoryRTL are simulated with random request streams;
+widths : the data width is PER PORT (W : nat -> Z in the pipeline model, `list Z` in check_history; a processed request
+         carries its port's width, `wreq`): one memory serving ports with different message types is covered.
+tie    : T-acc/T-diff.  The REAL MagicMemoryCL and stream MagicMemoryRTL are simulated with random request streams
+         (per-port message types mk_mem_msg(o,a,d) with mixed data/opaque/addr widths on one memory);
          MagicMemoryFL.read/write/amo are wrapped from here (no /repo change) to observe the order in which the
          memory actually services requests (servicing port = loop variable `i` of up_mem, read off the caller frame).
          (request streams, observed service order, observed responses, final read_mem image) + a proposed log go to
@@ -37,10 +40,10 @@ DEFS = '''
 Definition R := req_of.
 Definition P (c o t l d : Z) : resp := mkResp (match type_of_code c with Some x => x | None => TInv end) o t l d.
 Definition N := Z.to_nat.
-Definition hcase := (Z * list (Z * Z) * list (list req) * list (nat * call) * list (list resp) * list (Z * Z) * bool * tlog)%type.
+Definition hcase := (list Z * list (Z * Z) * list (list req) * list (nat * call) * list (list resp) * list (Z * Z) * bool * tlog)%type.
 '''
 CASE_T = 'hcase'
-OK_BODY = "let '(W, ini, rq, ord, out, img, cpl, lg) := c in check_history W ini rq ord out img cpl lg"
+OK_BODY = "let '(Ws, ini, rq, ord, out, img, cpl, lg) := c in check_history Ws ini rq ord out img cpl lg"
 
 # ----------------------------------------------------------------------------- python replica of the spec
 # (used ONLY to propose the log, to word the diagnosis and to steer shrinking; Coq decides)
@@ -74,11 +77,11 @@ def py_call(W, r):
   if 3 <= t <= 11: return ('a', t, a, n, d % (1 << (8 * n)))
   return None
 
-def propose_log(W, reqs, order):
+def propose_log(Ws, reqs, order):
   """best-effort explanation of the observed service order: list of (port, request)"""
   cur = [0] * len(reqs); log = []
   def silent(p):
-    while cur[p] < len(reqs[p]) and py_call(W, reqs[p][cur[p]]) is None:
+    while cur[p] < len(reqs[p]) and py_call(Ws[p], reqs[p][cur[p]]) is None:
       log.append((p, reqs[p][cur[p]])); cur[p] += 1
   for p, c in order:
     if not (0 <= p < len(reqs)): continue
@@ -90,22 +93,22 @@ def propose_log(W, reqs, order):
 
 def py_check(h):
   """returns (ok, symptom, detail) — mirrors check_history"""
-  W, reqs, order, out, log = h['W'], h['reqs'], h['order'], h['out'], h['log']
+  Ws, reqs, order, out, log = h['Ws'], h['reqs'], h['order'], h['out'], h['log']
   if h.get('exception'): return False, 'exception', h['exception']
   cpl = True
   for p in range(len(reqs)):
     lp = [r for q, r in log if q == p]
     op = [c for q, c in order if q == p]
-    want = [c for c in (py_call(W, r) for r in reqs[p]) if c is not None]
+    want = [c for c in (py_call(Ws[p], r) for r in reqs[p]) if c is not None]
     if op != want[:len(op)]:
       k = next((i for i in range(len(op)) if i >= len(want) or op[i] != want[i]), len(op))
       dup = k > 0 and op[k] == op[k - 1]
       return False, ('reservice' if dup else 'service-order'), f'port {p}: service #{k} is {op[k]}, the port\'s next request asks for {want[k] if k < len(want) else None}'
     if cpl and lp != reqs[p]: return False, 'not-all-serviced', f'port {p}: {len(lp)} of {len(reqs[p])} serviced'
-  calls = [(p, py_call(W, r)) for p, r in log if py_call(W, r) is not None]
+  calls = [(p, py_call(Ws[p], r)) for p, r in log if py_call(Ws[p], r) is not None]
   if calls != order: return False, 'service-order', 'observed calls differ from the calls of the proposed log'
   mem = dict(h['init']); spec = [[] for _ in reqs]
-  for p, r in log: spec[p].append(py_apply(W, r, mem))
+  for p, r in log: spec[p].append(py_apply(Ws[p], r, mem))
   for p in range(len(reqs)):
     if (out[p] != spec[p]) if cpl else (out[p] != spec[p][:len(out[p])]):
       k = next((i for i in range(len(out[p])) if i >= len(spec[p]) or out[p][i] != spec[p][i]), len(out[p]))
@@ -124,7 +127,7 @@ def call_t(c):
 def case_term(h):
   pr = lambda l: coq_list([f'({zlit(a)}, {zlit(b)})' for a, b in l])
   return ('(' + ', '.join([
-    zlit(h['W']), pr(h['init']),
+    coq_list([zlit(w) for w in h['Ws']]), pr(h['init']),
     coq_list([coq_list([req_t(r) for r in rs]) for rs in h['reqs']]),
     coq_list([f'(N {p}, {call_t(c)})' for p, c in h['order']]),
     coq_list([coq_list([resp_t(r) for r in rs]) for rs in h['out']]),
@@ -167,31 +170,35 @@ class Impl:
       try: return o_amo(self, amo_, addr, nbytes, data)
       finally: me.depth -= 1
     MagicMemoryFL.read, MagicMemoryFL.write, MagicMemoryFL.amo = read, write, amo
-  def msg_types(s, W):
-    if W not in s.types: s.types[W] = s.mk_mem_msg(8, 32, 8 * W)
-    return s.types[W]
+  def msg_types(s, pt):
+    W, obits, abits = pt
+    if pt not in s.types: s.types[pt] = s.mk_mem_msg(obits, abits, 8 * W)
+    return s.types[pt]
 
 def fields(m): return (int(m.type_), int(m.opaque), int(m.test), int(m.len), int(m.data))
 
-def simulate(I, impl, W, reqs, init, tm, window):
+def simulate(I, impl, ptypes, reqs, init, tm, window):
   """run the real memory on `reqs` (per port list of (type, opaque, addr, len, data)) under timing tm.
   returns the history dict (order/out/img as observed)."""
   pm = I.pymtl3
-  Req, Resp = I.msg_types(W)
   nports = len(reqs)
+  if isinstance(ptypes, int): ptypes = [(ptypes, 8, 32)] * nports     # homogeneous mk_mem_msg(8,32,8W)
+  ptypes = [tuple(pt) for pt in ptypes]                                # per port (data bytes W, opaque bits, addr bits)
+  Ws = [pt[0] for pt in ptypes]
+  T = [I.msg_types(pt) for pt in ptypes]                               # per port (Req, Resp) classes
   out = [[] for _ in range(nports)]
-  msgs = [[Req(t, o, a, l, d) for (t, o, a, l, d) in rs] for rs in reqs]
+  msgs = [[T[i][0](t, o, a, l, d) for (t, o, a, l, d) in reqs[i]] for i in range(nports)]
   def rec(i): return lambda a, b: (out[i].append(fields(a)) or True)
-  h = {'impl': impl, 'W': W, 'reqs': [list(map(tuple, rs)) for rs in reqs], 'init': list(init), 'timing': tm, 'window': list(window),
+  h = {'impl': impl, 'Ws': Ws, 'ptypes': ptypes, 'reqs': [list(map(tuple, rs)) for rs in reqs], 'init': list(init), 'timing': tm, 'window': list(window),
        'order': [], 'out': out, 'img': [], 'complete': False, 'exception': None}
   obs = []
   try:
     if impl == 'CL':
       class TH(pm.Component):
         def construct(s):
-          s.srcs = [I.TestSrcCL(Req, msgs[i], tm['src_init'][i], tm['src_intv'][i]) for i in range(nports)]
-          s.mem = I.CL(nports, [(Req, Resp)] * nports, tm['stall'], tm['latency'])
-          s.sinks = [I.TestSinkCL(Resp, [None] * (len(msgs[i]) + 4), tm['sink_init'][i], tm['sink_intv'][i], cmp_fn=rec(i)) for i in range(nports)]
+          s.srcs = [I.TestSrcCL(T[i][0], msgs[i], tm['src_init'][i], tm['src_intv'][i]) for i in range(nports)]
+          s.mem = I.CL(nports, list(T), tm['stall'], tm['latency'])
+          s.sinks = [I.TestSinkCL(T[i][1], [None] * (len(msgs[i]) + 4), tm['sink_init'][i], tm['sink_intv'][i], cmp_fn=rec(i)) for i in range(nports)]
           for i in range(nports):
             pm.connect(s.srcs[i].send, s.mem.ifc[i].req)
             pm.connect(s.mem.ifc[i].resp, s.sinks[i].recv)
@@ -202,9 +209,9 @@ def simulate(I, impl, W, reqs, init, tm, window):
       try:
         class TH(pm.Component):
           def construct(s):
-            s.srcs = [I.SourceRTL(Req, msgs[i], tm['src_init'][i], tm['src_intv'][i]) for i in range(nports)]
-            s.mem = I.smm.MagicMemoryRTL(nports, [(Req, Resp)] * nports, tm['stall'], tm['latency'])
-            s.sinks = [I.SinkRTL(Resp, [Resp()] * (len(msgs[i]) + 4), tm['sink_init'][i], tm['sink_intv'][i], cmp_fn=rec(i)) for i in range(nports)]
+            s.srcs = [I.SourceRTL(T[i][0], msgs[i], tm['src_init'][i], tm['src_intv'][i]) for i in range(nports)]
+            s.mem = I.smm.MagicMemoryRTL(nports, list(T), tm['stall'], tm['latency'])
+            s.sinks = [I.SinkRTL(T[i][1], [T[i][1]()] * (len(msgs[i]) + 4), tm['sink_init'][i], tm['sink_intv'][i], cmp_fn=rec(i)) for i in range(nports)]
             for i in range(nports):
               pm.connect(s.srcs[i].send, s.mem.ifc[i].req)
               pm.connect(s.mem.ifc[i].resp, s.sinks[i].recv)
@@ -250,7 +257,7 @@ def simulate(I, impl, W, reqs, init, tm, window):
   h['order'] = [(p, c) for p, c in obs]
   bad_t = [r for o in out for r in o if r[0] not in KNOWN_TYPES]
   if bad_t and not h['exception']: h['exception'] = f'response with unknown type code {bad_t[0]}'
-  h['log'] = propose_log(W, h['reqs'], h['order'])
+  h['log'] = propose_log(Ws, h['reqs'], h['order'])
   return h
 
 def _nonzero_outside(arr, lo, hi):
@@ -269,47 +276,57 @@ def gen_data(rng, W):
   if k < 0.45: return (1 << (8 * W - 1)) + rng.randrange(-2, 3)
   return rng.getrandbits(8 * W)
 
-def gen_reqs(rng, impl, W, nports, nreq, base, span):
+def gen_ptypes(rng, nports):
+  """per-port message types (data bytes W, opaque bits, addr bits): one memory may serve ports of different widths"""
+  k = rng.random()
+  if k < 0.4 or nports == 1 and k < 0.7: Ws = [4] * nports
+  elif k < 0.55 or nports == 1:          Ws = [rng.choice([2, 8, 16])] * nports
+  else:
+    Ws = [rng.choice([2, 4, 4, 8, 16]) for _ in range(nports)]
+    if len(set(Ws)) == 1: Ws[rng.randrange(nports)] = rng.choice([w for w in (2, 4, 8, 16) if w != Ws[0]])
+  if rng.random() < 0.6: return [(w, 8, 32) for w in Ws]
+  return [(w, rng.choice([1, 4, 8, 11]), rng.choice([20, 32, 48])) for w in Ws]
+
+def gen_reqs(rng, impl, ptypes, nreq, base, span):
   reqs = []
-  for p in range(nports):
+  for p, (W, ob, ab) in enumerate(ptypes):
     rs = []
     for _ in range(nreq[p]):
       k = rng.random()
       a = base + rng.randrange(0, span)
-      o = rng.getrandbits(8)
+      o = rng.getrandbits(ob)
       if k < 0.33:   rs.append((0, o, a, rng.randrange(0, W), rng.getrandbits(8 * W) if rng.random() < 0.3 else 0))
       elif k < 0.66: rs.append((1, o, a, rng.randrange(0, W), gen_data(rng, W)))
       elif k < 0.95 or impl != 'CL':
-        # AMOs on the full data width only (len field 0); word-aligned half of the time so that ports collide
+        # AMOs on the port's full data width only (len field 0); aligned half of the time so that ports collide
         if rng.random() < 0.5: a = base + (rng.randrange(0, span) // W) * W
         rs.append((rng.choice(AMO_CODES), o, a, 0, gen_data(rng, W)))
       else:          rs.append((rng.choice([14, 15]), o, a, rng.randrange(0, W), rng.getrandbits(8 * W)))
     reqs.append(rs)
   return reqs
 
-def gen_reqs_hot(rng, impl, W, nports, nreq, base, span):
-  """tiny window, a small pool of (addr,len) locations that are read again and again, separated by stores/AMOs of
+def gen_reqs_hot(rng, impl, ptypes, nreq, base, span):
+  """tiny window, a small pool of (addr,nbytes) locations that are read again and again, separated by stores/AMOs of
   other sizes and alignments that overlap them from below / above / inside / covering (any caching, merging or
   partial-invalidation shortcut inside the memory shows up as a stale byte in a repeated read)"""
-  pool = [(base + rng.randrange(0, span), rng.randrange(0, W)) for _ in range(rng.choice([1, 2, 2, 3]))]
+  maxW = max(pt[0] for pt in ptypes)
+  pool = [(base + rng.randrange(0, span), rng.randrange(1, rng.choice([w for w, _, _ in ptypes]) + 1)) for _ in range(rng.choice([1, 2, 2, 3]))]
   p_rd = rng.choice([0.3, 0.4, 0.5]); p_amo = rng.choice([0, 0.05, 0.15])
   reqs = []
-  for p in range(nports):
+  for p, (W, ob, ab) in enumerate(ptypes):
     rs = []
     for _ in range(nreq[p]):
-      k = rng.random(); o = rng.getrandbits(8)
+      k = rng.random(); o = rng.getrandbits(ob)
+      a0, n0 = rng.choice(pool)
       if k < p_rd:
-        a, l = rng.choice(pool) if rng.random() < 0.85 else (base + rng.randrange(0, span), rng.randrange(0, W))
+        if n0 <= W and rng.random() < 0.85: a, l = a0, (0 if n0 == W else n0)      # the hot location, if this port can express it
+        else: a, l = base + rng.randrange(0, span), rng.randrange(0, W)
         rs.append((0, o, a, l, 0))
-      elif k < 1 - p_amo:
-        # a store placed relative to one of the hot locations: starts up to W-1 bytes below it .. at its last byte
-        a0, l0 = rng.choice(pool); n0 = W if l0 == 0 else l0
-        a = max(1, a0 + rng.randrange(-(W - 1), n0))
-        rs.append((1, o, a, rng.randrange(0, W), gen_data(rng, W)))
       else:
-        a0, l0 = rng.choice(pool); n0 = W if l0 == 0 else l0
+        # a store / AMO placed relative to one of the hot locations: starts up to W-1 bytes below it .. at its last byte
         a = max(1, a0 + rng.randrange(-(W - 1), n0))
-        rs.append((rng.choice(AMO_CODES), o, a, 0, gen_data(rng, W)))
+        if k < 1 - p_amo: rs.append((1, o, a, rng.randrange(0, W), gen_data(rng, W)))
+        else:             rs.append((rng.choice(AMO_CODES), o, a, 0, gen_data(rng, W)))
     reqs.append(rs)
   return reqs
 
@@ -322,10 +339,10 @@ def gen_timing(rng, impl, nports, latency=None, stall=None):
 
 def nontrivial(h):
   """some read/AMO observes a byte an EARLIER serviced request of the log wrote, or two ports touch one byte"""
-  W = h['W']; seen = {}
+  seen = {}
   for p, r in h['log']:
     t, o, a, l, d = r
-    n = W if l == 0 else l
+    n = h['Ws'][p] if l == 0 else l
     if t == 0 or 3 <= t <= 11:
       if any((a + k) in seen for k in range(n)): return True
     if t == 1 or 3 <= t <= 11:
@@ -334,9 +351,9 @@ def nontrivial(h):
 
 def _reread_count(h):
   """how often the service log contains: read (X,n) ... only stores, at least one partially overlapping [X,X+n) ... read (X,n)"""
-  W = h['W']; last = None; hit = False; cnt = 0
+  last = None; hit = False; cnt = 0
   for p, r in h['log']:
-    t, o, a, l, d = r; n = W if l == 0 else l
+    t, o, a, l, d = r; n = h['Ws'][p] if l == 0 else l
     if t == 0:
       if last == (a, n) and hit: cnt += 1
       last, hit = (a, n), False
@@ -351,7 +368,7 @@ def shrink(I, h, budget=80):
   """delta-debug the request streams under the same timing; keeps the first failing symptom class"""
   ok, sym0, _ = py_check(h)
   def fails(reqs):
-    g = simulate(I, h['impl'], h['W'], reqs, h['init'], h['timing'], h['window'])
+    g = simulate(I, h['impl'], h['ptypes'], reqs, h['init'], h['timing'], h['window'])
     ok, sym, _ = py_check(g)
     return (not ok and (sym == sym0 or sym0 == 'exception')), g
   best = h
@@ -373,7 +390,7 @@ def shrink(I, h, budget=80):
   return best
 
 def replay_of(h):
-  return {'impl': h['impl'], 'W': h['W'], 'init': h['init'], 'timing': h['timing'], 'window': h['window'],
+  return {'impl': h['impl'], 'port_types (data bytes, opaque bits, addr bits)': h['ptypes'], 'init': h['init'], 'timing': h['timing'], 'window': h['window'],
           'requests_per_port (type,opaque,addr,len,data)': h['reqs'],
           'observed_service_order (port, MagicMemoryFL call)': h['order'],
           'observed_responses_per_port (type,opaque,test,len,data)': h['out'],
@@ -392,7 +409,7 @@ def report(ctx, I, h, coq_says_bad=True):
     key = f'C18:{name}:coq-only:' + hashlib.sha1(case_term(h).encode()).hexdigest()[:10]
     detail2 = 'the Coq acceptor rejects this history although the python replica accepts it (replica and model differ)'
   else:
-    key = f'C18:{name}:{sym2}:' + hashlib.sha1(repr((small["W"], small["reqs"], small["timing"])).encode()).hexdigest()[:10]
+    key = f'C18:{name}:{sym2}:' + hashlib.sha1(repr((small["ptypes"], small["reqs"], small["timing"])).encode()).hexdigest()[:10]
   # confirm the shrunk history with the Coq acceptor
   try:
     still = ctx.coq_bad_indices('shrunk', IMPORTS, DEFS, CASE_T, [case_term(small)], OK_BODY) if not small['exception'] else [0]
@@ -460,7 +477,8 @@ def run(ctx):
     plan.append((impl, rng.choice([1, 2, 2, 3, 3] if quick else [1, 2, 2, 3, 3, 4]), None, None))
   for (impl, nports, lat, st) in plan:
     if time.time() > t_end: ctx.note('time budget reached; remaining planned cases skipped'); break
-    W = rng.choice([4, 4, 4, 4, 4, 8, 2, 16]) if lat is None else 4
+    ptypes = gen_ptypes(rng, nports)
+    W = max(pt[0] for pt in ptypes)
     base = rng.randrange(8, 1 << 14) * 4 + rng.randrange(0, 4)
     span = rng.choice([4, 6, 8, 12, 16]) if W <= 4 else rng.choice([8, 16, 24])
     hi_n = 9 if quick else 16
@@ -468,16 +486,16 @@ def run(ctx):
     if hot:
       span = rng.choice([1, 2, 3, 4, 6])
       nreq = [rng.randrange(6, 2 * hi_n) for _ in range(nports)]
-      reqs = gen_reqs_hot(rng, impl, W, nports, nreq, base, span)
+      reqs = gen_reqs_hot(rng, impl, ptypes, nreq, base, span)
     else:
       nreq = [rng.randrange(2, hi_n) for _ in range(nports)]
-      reqs = gen_reqs(rng, impl, W, nports, nreq, base, span)
+      reqs = gen_reqs(rng, impl, ptypes, nreq, base, span)
     lo, hi = base - 2 * W - 16, base + span + 2 * W + 16
     init = [(a, rng.getrandbits(8)) for a in range(base - 2, base + span + 2)] if rng.random() < 0.4 else []
     ntim = 2 if nports == 1 else 1          # one-port streams are run under two timings: same content expected
     for k in range(ntim):
       tm = gen_timing(rng, impl, nports, lat if k == 0 else None, st if k == 0 else None)
-      hists.append(simulate(I, impl, W, reqs, init, tm, (lo, hi)))
+      hists.append(simulate(I, impl, ptypes, reqs, init, tm, (lo, hi)))
       hists[-1]['mode'] = 'hot' if hot else 'uniform'
 
   ctx.extra['build_and_sim_s'] = round(time.time() - ctx.t0, 1)
@@ -485,13 +503,14 @@ def run(ctx):
   live = [h for h in hists if not h['exception']]
   cases = [case_term(h) for h in live]
   for h in hists:
-    key = (h['impl'], h['W'], h['reqs'], h['init'], h['order'])
+    key = (h['impl'], h['ptypes'], h['reqs'], h['init'], h['order'])
     ctx.count(key, nontrivial(h) and not h['exception'],
               cls=f"{h['impl']}:p{len(h['reqs'])}:L{h['timing']['latency']}:s{h['timing']['stall']}")
+  ctx.extra['mixed_width_histories'] = sum(1 for h in hists if len(set(h['Ws'])) > 1)
   ctx.extra['hot_window_histories'] = sum(1 for h in hists if h.get('mode') == 'hot')
   ctx.extra['repeated_read_after_overlapping_store'] = sum(_reread_count(h) for h in hists)
   for h in live[:3] + live[-2:]:
-    ctx.sample({'impl': h['impl'], 'W': h['W'], 'timing': h['timing'], 'requests': h['reqs'], 'service_order': h['order'],
+    ctx.sample({'impl': h['impl'], 'port_types': h['ptypes'], 'timing': h['timing'], 'requests': h['reqs'], 'service_order': h['order'],
                 'responses': h['out'], 'cycles': h.get('cycles')})
   bad = ctx.coq_bad_indices('hist', IMPORTS, DEFS, CASE_T, cases, OK_BODY, shard=60) if cases else []
   badset = set(bad)
@@ -523,7 +542,7 @@ def replay(ctx, r):
   rp = r['replay']
   if 'first' in rp: rp = rp['first']
   reqs = [[tuple(x) for x in rs] for rs in rp['requests_per_port (type,opaque,addr,len,data)']]
-  h = simulate(I, rp['impl'], rp['W'], reqs, [tuple(x) for x in rp['init']], rp['timing'], tuple(rp['window']))
+  h = simulate(I, rp['impl'], rp.get('port_types (data bytes, opaque bits, addr bits)', rp.get('W', 4)), reqs, [tuple(x) for x in rp['init']], rp['timing'], tuple(rp['window']))
   ok, sym, detail = py_check(h)
   bad = [0] if h['exception'] else ctx.coq_bad_indices('replay', IMPORTS, DEFS, CASE_T, [case_term(h)], OK_BODY)
   print(json.dumps({'observed_service_order': h['order'], 'observed_responses': h['out'], 'exception': h['exception']}, default=str)[:3000])
@@ -548,7 +567,7 @@ def main(ctx):
   except Exception as e:
     ctx.note('correspondence crashed: ' + traceback.format_exc()[-1500:])
     ctx.violation('C18:harness-crash', f'correspondence could not run: {e!r}', {'traceback': traceback.format_exc()}, found_input=False)
-  return ctx.finish(rule='history = (implementation CL|RTL, data width, 1-4 ports, latency, stall prob, seed, src/sink delays, per-port random '
+  return ctx.finish(rule='history = (implementation CL|RTL, per-port message types (data width 2/4/8/16 bytes, opaque 1-11 bits, addr 20-48 bits; mixed widths on one memory), 1-4 ports, latency, stall prob, seed, src/sink delays, per-port random '
                          'request streams of reads/writes len 1..W / full-width AMOs (9 ops) / INV,FLUSH on a 4-24 byte shared window, optional preload); '
                          'distinct = distinct (impl, streams, preload, observed service order); non-trivial = some read/AMO observes a byte written by an '
                          'earlier serviced request; each history is judged by the certified Coq acceptor check_history (vm_compute)')
